@@ -406,7 +406,9 @@ def registry_invariants(s: Dict[str, Any]) -> List[str]:
         parts = []
         seen = 0
         while o and seen <= n:
-            parts.append((objs[o - 1]["nm"]["b"], objs[o - 1]["nm"]["d"]))
+            # the registry is keyed by strings: a name with dots in it ('x.setter') contributes several components (Comps in Registry.tla)
+            ps = objs[o - 1]["nm"]["b"].split(".")
+            parts.extend(reversed([(x, 0) for x in ps[:-1]] + [(ps[-1], objs[o - 1]["nm"]["d"])]))
             o = objs[o - 1]["par"]
             seen += 1
         return tuple(reversed(parts))
@@ -640,6 +642,9 @@ def derived_relations(system: Any, msgs: Sequence[Tuple[str, str]] = ()) -> List
             if o.kind not in (model.DocumentableKind.METHOD, model.DocumentableKind.CLASS_METHOD,
                               model.DocumentableKind.STATIC_METHOD):
                 bad.append(f"FunctionInClassIsMethod:{o.fullName()}:{o.kind}")
+        if isinstance(o, model.Function) and not isinstance(o.parent, model.Class) and o.kind in (
+                model.DocumentableKind.METHOD, model.DocumentableKind.CLASS_METHOD, model.DocumentableKind.STATIC_METHOD):
+            bad.append(f"MethodSitsInClass:{o.fullName()}:{o.kind}")     # a kind that fits its place: no methods in modules
         if isinstance(o, (model.Function, model.Attribute)) and o.contents:
             bad.append(f"LeavesHaveNoChildren:{o.fullName()}")
     # the kind of an object fits what it is (a module is not a variable, a class is not a function ...)
